@@ -34,7 +34,7 @@ var genCmdAttr = &cobra.Command{
 		if err != nil {
 			return err
 		}
-		fmt.Fprintf(output, "%s", b)
-		return nil
+		_, err = fmt.Fprintf(output, "%s", b)
+		return err
 	},
 }
